@@ -286,8 +286,9 @@ def gen_cli_case(rng, k):
     else:
         algo = rng.choice(PLAIN_ALGOS + SUPER_ALGOS)
     costs = {}
-    for nm, vals in (("spe", [0, 0, 1]), ("dup", [0, 1, 2, 3]), ("hgt", [0, 1, 2, 3, "float('inf')", "2*2"]),
-                     ("floss", [0, 1, 2, 3]), ("sloss", [0, 1, 2, 3])):
+    # the cost options are Python expressions: integers, fractions (dyadic, exact in binary), infinity
+    for nm, vals in (("spe", [0, 0, 1, 0.5]), ("dup", [0, 1, 2, 3, 1.5, 0.25]), ("hgt", [0, 1, 2, 3, "float('inf')", "2*2", 2.5, "3/2"]),
+                     ("floss", [0, 1, 2, 3, 0.5, 1.25]), ("sloss", [0, 1, 2, 3, 0.75])):
         if rng.random() < 0.45:
             costs[nm] = rng.choice(vals)
     return {"k": k, "obj": obj, "sp": sp, "omitted": omitted, "leaf_species": leaf_species, "syn": syn,
